@@ -44,7 +44,8 @@ import Pog.Model.Registry
       unknown keyword or without a required one raises `TypeError` before the body runs; reading an
       unbound local raises `NameError`; `match` takes the first arm whose literal equals the subject.
     * httpx 0.28: a keyword that is `None` is ignored; a header value that is not `str` raises
-      `TypeError` before anything is sent (`headerValuesOk`).
+      `TypeError` before anything is sent (`headerValuesOk`; since the repair of F39 only a value of a parameter that
+      is not declared integer / number / boolean can still be a non-`str` there).
 -/
 namespace Pog.GenCode
 
@@ -57,10 +58,18 @@ inductive GLoc
   | other
   deriving DecidableEq, Repr
 
+/-- The python type of a declared parameter, as far as `url_args_generator._string_value_expr` looks at it:
+    `p["type"]` without its ` | None` is `int` / `float` (`num`), `bool`, or anything else (`plain`: `str`, a model,
+    an enum, a list, …).  The spec's `integer` / `number` / `boolean` resolve to the first two. -/
+inductive PKind
+  | plain | num | bool
+  deriving DecidableEq, Repr
+
 structure GParam where
   name : Str
   loc : GLoc
   required : Bool
+  kind : PKind
   deriving DecidableEq, Repr
 
 /-- A piece of the path template: literal text or `{var}`. -/
@@ -176,6 +185,8 @@ structure PInfo where
   loc : SLoc
   /-- `p["original_name"]` -/
   orig : Str
+  /-- what `_string_value_expr` makes of `p["type"]` -/
+  kind : PKind
   deriving DecidableEq, Repr
 
 /-- The Python identifier in the signature and in the body: `sanitize_method_name(p["name"])`,
@@ -185,7 +196,7 @@ def PInfo.ident (p : PInfo) : Str := sanMethod p.name
 /-- The identifier under which a declared parameter appears in the single-content signature. -/
 def GParam.ident (p : GParam) : Str := sanMethod (sanMethod p.name)
 
-def GParam.info (p : GParam) : PInfo := ⟨sanMethod p.name, p.required, p.loc.toS, p.name⟩
+def GParam.info (p : GParam) : PInfo := ⟨sanMethod p.name, p.required, p.loc.toS, p.name, p.kind⟩
 
 def declaredInfos (ps : List GParam) : List PInfo :=
   ps.map GParam.info
@@ -221,7 +232,7 @@ def bodyInfo (body : Option GBody) (taken : List Str) : List PInfo :=
   | some b =>
     match primaryBody b.media with
     | none => []
-    | some (_, k) => if k.param ∈ taken then [] else [⟨k.param, b.required, .body, k.param⟩]
+    | some (_, k) => if k.param ∈ taken then [] else [⟨k.param, b.required, .body, k.param, .plain⟩]
 
 /-- `_ensure_path_variables_as_params`: every `{var}` whose sanitised name is not yet a key becomes a
     required path parameter.  (Python iterates a `set`; the order is irrelevant for keyword calls.) -/
@@ -229,7 +240,7 @@ def undeclaredInfos : List Str → List Str → List PInfo
   | [], _ => []
   | v :: vs, taken =>
     if sanMethod v ∈ taken then undeclaredInfos vs taken
-    else ⟨sanMethod v, true, .path, v⟩ :: undeclaredInfos vs (sanMethod v :: taken)
+    else ⟨sanMethod v, true, .path, v, .plain⟩ :: undeclaredInfos vs (sanMethod v :: taken)
 
 /-- `list.sort(key=lambda p: not p["required"])` — stable. -/
 def requiredFirst (l : List PInfo) : List PInfo :=
@@ -752,6 +763,31 @@ def GValue.isStr : GValue → Bool
   | .str _ => true
   | _ => false
 
+/-- The text of `str(v)`: the token of a value IS its string form (`str(None)` is `None`). -/
+def GValue.tok : GValue → Str
+  | .none => "None".toList
+  | .str t => t
+  | .other t => t
+
+/-- `url_args_generator._string_value_expr` (F39 repaired), the expression a header entry is written with:
+    `str(serialize(v))` for an `int` / `float` parameter, `str(serialize(v)).lower()` for a `bool` one (httpx's
+    spelling `true` / `false` of a query boolean), `serialize(v)` unconverted for every other declared type.
+    (`lowerAscii`: exact on what `str` makes of a bool, a number or `None`; python's `.lower()` also lowers
+    non-ASCII capitals of a `str` passed where a boolean is declared.) -/
+def strValue (k : PKind) (v : GValue) : GValue :=
+  match k with
+  | .plain => v
+  | .num => .str v.tok
+  | .bool => .str (lowerAscii v.tok)
+
+/-- One line of the `headers` dict display: the line of `dictEntry` with the value written through
+    `_string_value_expr` (the `is not None` test of an optional one is on the argument itself). -/
+def headerEntry (args : GArgs) (p : PInfo) : Option (Str × GValue) :=
+  (dictEntry args p).map (fun e => (e.1, strValue p.kind e.2))
+
+def headerEntries (ps : List PInfo) (args : GArgs) : List (Str × GValue) :=
+  (ps.filter (fun p => p.loc = .header)).filterMap (headerEntry args)
+
 def headerValuesOk (h : Option (List (Str × GValue))) : Bool :=
   match h with
   | none => true
@@ -773,7 +809,7 @@ def stdQuery (op : Op) (args : GArgs) : Option (List (Str × GValue)) :=
 
 /-- `headers: dict[str, Any] = {…}` — written iff some parameter is `in: header`. -/
 def stdHeaders (op : Op) (args : GArgs) : Option (List (Str × GValue)) :=
-  if (orderedParams op).any (fun p => p.loc = .header) then some (dictEntries .header (orderedParams op) args)
+  if (orderedParams op).any (fun p => p.loc = .header) then some (headerEntries (orderedParams op) args)
   else none
 
 /-- The body keyword of the single-content method. -/
